@@ -300,10 +300,10 @@ def items(tier: str, seed: int):
             if gens()[n].same_only and a != b:
                 continue
             out.append({"part": "A", "gen": n, "a": cfgs[a], "b": cfgs[b]})
-    sub = ("config", "header", "json") if tier == "quick" else KCONFGEN_FORMATS
-    for fmt in sub:
+    sub: List[dict] = []
+    for fmt in ("config", "header", "json") if tier == "quick" else KCONFGEN_FORMATS:
         for a, b in ((1, 1), (1, 3)) if tier == "quick" else ((1, 1), (1, 3), (0, 5), (4, 0)):
-            out.append({"part": "A", "gen": f"kconfgen-subprocess:{fmt}", "a": cfgs[a], "b": cfgs[b]})
+            sub.append({"part": "A", "gen": f"kconfgen-subprocess:{fmt}", "a": cfgs[a], "b": cfgs[b]})
     kinds = ("regular", "symlink") if tier == "quick" else ("regular", "symlink", "symlink_abs")
     for a, b in itertools.permutations(range(len(cfgs)), 2):
         for kind in kinds:
@@ -311,6 +311,10 @@ def items(tier: str, seed: int):
                 for wdep in (False, True):
                     older = cfgs[[i for i in range(len(cfgs)) if i not in (a, b)][0]]
                     out.append({"part": "B", "a": cfgs[a], "b": cfgs[b], "older": older if old else None, "kind": kind, "write_deprecated": wdep})
+    # the subprocess items take seconds each: spread them over the list so that they land in different worker chunks
+    stride = max(1, len(out) // max(1, len(sub)))
+    for n, it in enumerate(sub):
+        out.insert(n * (stride + 1), it)
     return out
 
 
